@@ -164,3 +164,53 @@ class DomainFidelity(Harness):
 
 
 HARNESSES = [DomainFidelity()]
+
+# ---- deductive: DomainParser.parse_preconditions hands the WHOLE body to the recursive-descent parser -----------------------------
+import z3
+from pyvc.core import Val
+from pyvc.sorts import SExp, SList, I, B, sfirst, srest
+DP = "lisp_parsers.domain_parser:DomainParser."
+PPK = "lisp_parsers.preconditions_parser:PreconditionsParser.parse"
+# pre_sem(root, asts): the formula held by `root` is the conjunction of the formulas written in `asts` (established bounded by c01-fidelity)
+_pre_sem = z3.Function("pre_sem", I, SList, B)
+
+
+def _h_pre_sem(interp, st, a):
+    return Val(_pre_sem(a[0].t, interp.coerce(a[1], "slist").t), "bool")
+
+
+def _h_conjuncts(interp, st, a):
+    """the conjuncts of a precondition body: its items after 'and', or the body itself as the only conjunct (single literal, not, or, forall, ...)"""
+    body = a[0].t
+    items = SExp.items(body)
+    is_and = z3.And(z3.Not(SList.is_Nil(items)), sfirst(items) == SExp.Atom(z3.StringVal("and")))
+    return Val(z3.If(is_and, srest(items), SList.Snoc(SList.Nil, body)), "slist")
+
+
+_C01_HOOKS = {"pre_sem": _h_pre_sem, "conjuncts": _h_conjuncts}
+_OPQ = ("ref", "opaque")
+CONTRACTS[PPK] = dict(
+    prop="C01", assumed=True,
+    params={"self": ("ref", "PreconditionsParser"), "precondition_root": ("ref", "Precondition"), "preconditions_ast": "slist", "domain_functions": _OPQ,
+            "domain_predicates": _OPQ, "domain_types": _OPQ, "domain_constants": _OPQ, "action_signature": _OPQ},
+    returns=("ref", "Precondition"), returns_optional=True,
+    ensures=["pre_sem(precondition_root, preconditions_ast)"], raises={"SyntaxError": "True", "KeyError": "True", "TypeError": "True", "IndexError": "True", "ValueError": "True"},
+    modifies=["Precondition.operands[precondition_root]", "Precondition.equality_preconditions[precondition_root]",
+              "Precondition.inequality_preconditions[precondition_root]"], spec_hooks=_C01_HOOKS)
+CONTRACTS[DP + "parse_preconditions"] = dict(
+    prop="C01",
+    params={"self": ("ref", "DomainParser"), "preconditions_ast": "sexp", "new_action": ("ref", "Action"), "domain_functions": _OPQ,
+            "domain_predicates": _OPQ, "domain_types": _OPQ, "domain_constants": _OPQ},
+    locals={"conjuncts": "slist", "action_preconditions": ("ref", "CompoundPrecondition")}, returns="none",
+    requires=["is_list(preconditions_ast)"],
+    ensures=[
+        # an empty body () is the true precondition: the action keeps its (empty) precondition
+        "implies(len(preconditions_ast) == 0, new_action.preconditions == old(new_action.preconditions))",
+        # otherwise the action's precondition is a fresh conjunction holding exactly the conjuncts of the WHOLE body as written —
+        # the body of an 'and', or the body itself when it is a single condition such as (p ?x) or (not (p ?x))
+        "implies(len(preconditions_ast) > 0, fresh(new_action.preconditions) and fresh(new_action.preconditions.root) and "
+        "new_action.preconditions.root.binary_operator == 'and' and pre_sem(new_action.preconditions.root, conjuncts(preconditions_ast)))"],
+    raises={"SyntaxError": "True", "KeyError": "True", "TypeError": "True", "IndexError": "True", "ValueError": "True"},
+    modifies=["Action.preconditions[new_action]"],
+    calls={"PreconditionsParser.parse": PPK},
+    spec_hooks=dict(_C01_HOOKS, is_list=lambda interp, st, a: Val(SExp.is_Lst(a[0].t), "bool")))
